@@ -56,6 +56,10 @@ def hash_definition(func: Callable) -> str:
         h = hashlib.sha256()
         h.update(code.co_code)
 
+        # The bytecode refers to attributes, globals and locals by index only:
+        # x.upper() and x.lower() compile to the same co_code. Hash the name tables too.
+        h.update(repr((code.co_names, code.co_varnames)).encode())
+
         # Serialize co_consts deterministically (replace nested code objects with names)
         consts_serialized = tuple(c if not hasattr(c, "co_name") else c.co_name for c in code.co_consts)
         h.update(repr(consts_serialized).encode())
